@@ -225,6 +225,28 @@ def run(chk, prog):
                    'val_equal consults get_origin_names for lists',
                    'val_equal compares lists by their items only: an empty list that belongs to other lists than the '
                    'default value is elided from the save and comes back without its origins', ve.loc(0))
+    if ve is not None:
+        # "equal to its default" is exact: the value that is left out of the save is replaced by the default on load
+        approx = []
+        for gfn in prog.with_closures(ve):
+            for bb, si, st_ in gfn.stmts():
+                if st_['k'] == 'assign' and st_['rv']['k'] == 'binop':
+                    op_ = st_['rv']['op']
+                    tys = [gfn.local_ty(o['pl']['l']) for o in (st_['rv']['a'], st_['rv']['b'])
+                           if o.get('k') in ('copy', 'move') and 'p' not in o['pl']]
+                    if op_ in ('Lt', 'Le', 'Gt', 'Ge') or (op_ in ('Sub', 'SubWithOverflow', 'Div') and any(
+                            t_ in ('f32', 'f64', 'i32') for t_ in tys)):
+                        approx.append((gfn.loc(bb, si), op_))
+            for bb, t in gfn.calls():
+                if callee_short(t).rsplit('::', 1)[-1] in ('abs', 'abs_diff', 'round', 'floor', 'ceil', 'trunc', 'total_cmp',
+                                                           'partial_cmp', 'max', 'min', 'to_lowercase', 'trim',
+                                                           'eq_ignore_ascii_case'):
+                    approx.append((gfn.loc(bb), callee_short(t)))
+        chk.decide(R2a, chk.key(R2a, 'default-elision-is-exact'), not approx,
+                   'val_equal compares with ==, nothing approximate',
+                   'val_equal decides "equal to the default" with %s: a value that is merely close to (or a normalised form '
+                   'of) its default is left out of the save and comes back as the default' % (approx[0][1] if approx else ''),
+                   approx[0][0] if approx else ve.loc(0))
     wil = prog.fn('json_write::write_ink_list')
     if chk.anchor(R2a, 'json_write::write_ink_list', wil):
         reads_cache = [gfn.loc(bb, si) for gfn in prog.with_closures(wil) for bb, si, st_ in gfn.stmts()
